@@ -17,6 +17,7 @@ import (
 	"encoding/json"
 	"fmt"
 	"io"
+	"net"
 	"net/http"
 	"net/http/httptest"
 	"os"
@@ -65,10 +66,33 @@ var c18Srv struct {
 	cur      atomic.Pointer[rm.Model]
 	rate     atomic.Bool // the source adds RateLimit-* headers to manifest responses
 	srcAddr  *string
+	inflight atomic.Int64 // handler calls in progress
+	active   atomic.Int64 // connections with a request being read or served
+}
+
+// c18Quiesce waits until the loopback servers have nothing in progress and
+// drops every connection: a run that was cancelled (abort-on-error) may leave a
+// request behind that the server would otherwise apply after the command has
+// returned, i.e. "during" the next step.
+func c18Quiesce() {
+	wait := func() {
+		for i := 0; i < 50000; i++ {
+			if c18Srv.inflight.Load() == 0 && c18Srv.active.Load() == 0 {
+				return
+			}
+			time.Sleep(200 * time.Microsecond)
+		}
+	}
+	wait()
+	c18Srv.src.CloseClientConnections()
+	c18Srv.tgt.CloseClientConnections()
+	wait()
 }
 
 func c18Handler(addr *string) http.Handler {
 	return http.HandlerFunc(func(w http.ResponseWriter, r *http.Request) {
+		c18Srv.inflight.Add(1)
+		defer c18Srv.inflight.Add(-1)
 		m := c18Srv.cur.Load()
 		if m == nil {
 			http.Error(w, "no model", http.StatusBadGateway)
@@ -111,6 +135,25 @@ func c18Servers() (srcAddr, tgtAddr string) {
 			addr := new(string)
 			s := httptest.NewUnstartedServer(c18Handler(addr))
 			*addr = s.Listener.Addr().String()
+			var mu sync.Mutex
+			isActive := map[net.Conn]bool{}
+			s.Config.ConnState = func(c net.Conn, st http.ConnState) {
+				mu.Lock()
+				defer mu.Unlock()
+				now := st == http.StateActive
+				if now != isActive[c] {
+					if now {
+						c18Srv.active.Add(1)
+					} else {
+						c18Srv.active.Add(-1)
+					}
+				}
+				if now {
+					isActive[c] = true
+				} else {
+					delete(isActive, c)
+				}
+			}
 			s.Start()
 			if c18Srv.srcAddr == nil {
 				c18Srv.srcAddr = addr
@@ -650,7 +693,15 @@ func c18Check(c c18Case, ev *evid.Collector) *evid.Violation {
 		x := &c18StepCtx{C: c, Step: i, Names: env.names, ArtChild: env.artChild, Labels: labels}
 		x.SrcPre, x.TgtPre, x.DirPre = c18Snapshot(env.m, env.src), c18Snapshot(env.m, env.tgt), c18DirSnapshot(dirRoot)
 		start := env.m.Requests()
+		t0 := time.Now()
 		rerr, timedOut, stderr := c18RunCmd(st, conf)
+		c18Quiesce()
+		if dt := time.Since(t0); dt > 2*time.Second {
+			lab("slow-run(>2s)")
+			if os.Getenv("VERIF_C18_SLOW") != "" {
+				fmt.Fprintf(os.Stderr, "==== slow run %v step %d %+v err=%v requests=%d\n%s\n---- stderr\n%s\n", dt, i, st, rerr, env.m.Requests()-start, text, stderr)
+			}
+		}
 		if timedOut {
 			lab("outcome:watchdog")
 			ev.Case(false, "", c18LabelList(labels)...)
